@@ -269,6 +269,14 @@ def analyse(chk, lib, set_text=True):
             return ('ok', LoopState({v_: after[v_] for v_ in state if v_ in after}))
         except ReturnEx as r:
             return ('err', deref_all(r.v))
+        except BreakEx:
+            # `break`: the loop ends here and the code after it maps the state reached to the class
+            after = LoopState.of(fr2)
+            st = LoopState({v_: after[v_] for v_ in state if v_ in after})
+            m3, it3 = fresh('many')
+            m3.loop_result = st
+            out = deref_all(it3.call_def(body['def'], [Ref(ValPlace(vec))]))
+            return ('err', out)
     chk.ob('R12.2', "fold starts in a state value (%r)" % (init,), isinstance(init, (Enum, LoopState)), body['span'], 'init-state')
 
     # ---- explore the automaton through the closure itself
